@@ -140,7 +140,7 @@ def model_items(scenarios):
     and broadcast order of a ps party are those of the model run on the first components."""
     items = []
     for sc in scenarios:
-        if sc["stuck"]:
+        if sc["stuck"] or sc["n"] > 10:      # beyond ten parties: monitors only (the model's cross-check walks C(n,t) subsets)
             continue
         for p in sc["parties"]:
             if p["honest"]:
